@@ -262,7 +262,7 @@ func Render(p Program, st Style, f Features) string {
 		case KEqu:
 			emit(indent() + s.labels(it.Labels, rn, false, false) + caseOf("equ", ck()) + s.ws(true) + s.expr(it.Expr, rn) + trail())
 		case KOrg:
-			emit(indent() + caseOf("org", ck()) + s.ws(true) + s.expr(it.Expr, rn) + trail())
+			emit(indent() + s.labels(it.Labels, rn, false, false) + caseOf("org", ck()) + s.ws(true) + s.expr(it.Expr, rn) + trail())
 		case KEnd:
 			l := indent() + s.labels(it.Labels, rn, false, false) + caseOf("end", ck())
 			if len(it.Expr) > 0 {
@@ -321,7 +321,7 @@ func Render(p Program, st Style, f Features) string {
 		case it.Kind == KEnd:
 			e := it
 			end = &e
-		case it.Kind == KOrg && s.StartEnd:
+		case it.Kind == KOrg && s.StartEnd && len(it.Labels) == 0:
 			o := it
 			org = &o
 		default:
